@@ -135,7 +135,7 @@ impl Check for C10 {
         "C10"
     }
     fn gens(&self) -> Vec<GenSpec> {
-        vec![GenSpec { name: "fd", quick: 2500, thorough: 100_000 }, GenSpec { name: "tree", quick: 2500, thorough: 100_000 }, GenSpec { name: "fixed", quick: 3, thorough: 3 }]
+        vec![GenSpec { name: "fd", quick: 5000, thorough: 300_000 }, GenSpec { name: "tree", quick: 5000, thorough: 300_000 }, GenSpec { name: "fixed", quick: 3, thorough: 3 }]
     }
     fn rule(&self) -> &'static str {
         "Programs `prefix, conde { A, B [, C] }, suffix` over 4 query variables. 'fd': the prefix gives all variables the domain 0..=3 and posts distinctfd / ltefd+plusfd / diseqfd constraints, so both branches wake the SAME constraint objects (incl. DistinctFd2Constraint, which updates itself through Rc::make_mut); 'tree': prefix of disequalities and a plusz. Branches of 1-4 goals: bindings, aliasing, member with 2-4 answers (so states of different branches are alive at the same time), further constraints, user-state updates (probe tags), each ending in a probe; optional suffix goal shared by all branches. Monitors: (1) the answers of the combined program must equal, as a multiset, the union of the answers of `prefix, A, suffix`, `prefix, B, suffix`, ... run separately (real vs real); (2) M-snap: a clone of the state is retained at every probe with an order-insensitive fingerprint of substitution, constraint store incl. constraint internals, domain store and user state, and is re-fingerprinted after the whole search has finished: it must not have changed; (3) every final state's probe-tag trail must be the trail of exactly one branch (compared with the reference interpreter's trails). Distinct = distinct program text; non-trivial = at least two branches reach a probe."
@@ -145,8 +145,8 @@ impl Check for C10 {
     }
     fn floor(&self, tier: Tier) -> u64 {
         match tier {
-            Tier::Quick => 1500,
-            Tier::Thorough => 60_000,
+            Tier::Quick => 3500,
+            Tier::Thorough => 150_000,
         }
     }
     fn required_counters(&self) -> Vec<&'static str> {
